@@ -476,3 +476,22 @@ func TestRespell(t *testing.T) {
 		return c05x.RunBatch(u, fmt.Sprintf("rnd%d", n), rb.Sets, nil, "random", "VERIF_C05_LARGE=1", "VERIF_C05_MODE=respell")
 	})
 }
+
+// ---- native fuzz targets (campaigns in the thorough tier, see internal/vk/fuzz.go) ----
+
+// FuzzNormalize: the fuzzer's string against the token-wise reference and the
+// independent clauses (octets, canonical form, idempotence, no panic).
+func FuzzNormalize(f *testing.F) {
+	known := vk.FuzzStart(f)
+	for _, c := range regressNormalize {
+		f.Add(c.S)
+	}
+	f.Fuzz(func(t *testing.T, s string) {
+		vk.FuzzVerdict(t, known, checkNormalize(normCase{s}))
+	})
+}
+
+// FuzzNormalizePieces: the piece generator of unit normalize-random driven by the fuzzer.
+func FuzzNormalizePieces(f *testing.F) {
+	vk.FuzzRapid(f, drawNormalize, checkNormalize)
+}
